@@ -26,6 +26,14 @@ type knownLine struct {
 	prop, key, file, what string
 }
 
+// LoadKnown returns the recorded findings of a property (key, pinned case file, text).
+func LoadKnown(prop string) (keys, files, whats []string) {
+	for _, k := range loadKnown(prop) {
+		keys, files, whats = append(keys, k.key), append(files, k.file), append(whats, k.what)
+	}
+	return
+}
+
 func loadKnown(prop string) []knownLine {
 	data, err := os.ReadFile(filepath.Join(ev.Root(), "known_findings.txt"))
 	if err != nil {
